@@ -1,7 +1,7 @@
 """C10 — PickAPerm returns exactly the best input rankings."""
 from .. import spaces, refmodel, harness
 from ..harness import Ctx, watchdog
-from ..lib import ds_shards, ds_expected, tt, scheme_of
+from ..lib import ds_shards, ds_expected, tt, scheme_of, EarlierResults
 
 ID = 'C10'
 _lib = {}
@@ -34,7 +34,7 @@ def init_worker(cfg):
     _lib.update(A=PickAPerm)
 
 
-def check_case(ctx, ds, lname, n, schemes, dataset_obj=None, alg_obj=None, origin=None):
+def check_case(ctx, ds, lname, n, schemes, dataset_obj=None, alg_obj=None, origin=None, scheme_objs=None):
     from ..lib import mk_dataset, mk_scheme, labels_for, Back, wellformed
     labels = labels_for(lname, n)
     universe = spaces.universe_of(ds)
@@ -44,7 +44,7 @@ def check_case(ctx, ds, lname, n, schemes, dataset_obj=None, alg_obj=None, origi
     cands = [refmodel.canon(refmodel.unify(r, universe)) for r in ds]
     for s in schemes:
         accepted = complete or refmodel.proportional(s, spaces.UNIFYING)
-        scheme = mk_scheme(s)
+        scheme = scheme_objs[s] if scheme_objs and s in scheme_objs else mk_scheme(s)
         scores = [refmodel.ref_score(c, ds, s[0], s[1]) for c in cands]
         best = min(scores)
         minimal = set(c for c, v in zip(cands, scores) if v <= best + 1e-9)
@@ -77,6 +77,8 @@ def check_case(ctx, ds, lname, n, schemes, dataset_obj=None, alg_obj=None, origi
                               'an exception')
                 continue
             rk = c.consensus_rankings
+            _ = c.kemeny_score
+            _lib.setdefault('earlier', EarlierResults()).check_and_remember(ctx, ('pick', reused), c, case)
             if len(rk) < 1 or (one and len(rk) != 1):
                 ctx.violation('pickaperm-number-of-rankings', case, len(rk), 1 if one else '>=1')
                 continue
@@ -126,8 +128,9 @@ def histories(ctx, ds0, lname, n, schemes):
     for what, after in mutation_histories(ds0):
         for s in schemes:
             alg = _lib['A']()
-            d = prepare_mutated(ds0, labels, what, warm=lambda dd: alg.compute_consensus_rankings(dd, mk_scheme(s), False))
-            check_case(ctx, after, lname, n, [s], dataset_obj=d, alg_obj=alg, origin=[ds0, what])
+            so = mk_scheme(s)     # ONE scheme object for the run before and the run after the mutation
+            d = prepare_mutated(ds0, labels, what, warm=lambda dd: alg.compute_consensus_rankings(dd, so, False))
+            check_case(ctx, after, lname, n, [s], dataset_obj=d, alg_obj=alg, origin=[ds0, what], scheme_objs={s: so})
             ctx.count('executions_after_run_mutate_on_the_same_objects')
 
 
